@@ -48,6 +48,12 @@ CHECKS = {
             'invariant after every operation and a probe execution',
             'Every bounded history and every single fault point is executed on the implementation; the borrowed process '
             'state must be identical after every call. Time-outs are covered by the C14 scheduler harness.', '2/C05'),
+    'C17': ('bounded-exhaustive enumeration of files (all sequences of <=4/5 lines over 7 line kinds incl. markers, near-markers, '
+            'syntax/NameError lines, form feed) x separator pattern x independent/cumulative x ending (stop/resolve) x second '
+            'separation pass (x every verify/tifa/run order in thorough), executed on the real source/tifa/sandbox tools with '
+            'next_section up to two past the end; oracle: token/line bookkeeping and CPython linenos',
+            'Every bounded (file, operation sequence) is executed; chunk contents, concatenation, whole-file line numbers of '
+            'every syntax/TIFA/runtime feedback and traceback line, past-the-end behaviour and restoration are checked.', '2/C17'),
 }
 
 PENDING = ['C02', 'C03', 'C04', 'C05', 'C06', 'C07', 'C08', 'C09', 'C10', 'C11', 'C12', 'C13', 'C14', 'C15',
